@@ -37,7 +37,11 @@ class TCPTransport(BaseTransport, scheme="tcp"):
             return
         self.is_closed = True
         self.writer.close()
-        await self.writer.wait_closed()
+        try:
+            await self.writer.wait_closed()
+        except ConnectionError as e:
+            # The connection has been lost already (e.g. reset by peer); nothing left to close.
+            logger.debug(f"Exception while waiting for the writer to close: {e!r}")
 
     async def write(
         self,
